@@ -42,7 +42,6 @@
 //	C04 io-local-not-synced-around-call an io_bind'ed local is passed to a method by a function
 //	                                    without "derived" I/O arguments
 //	C01 suspend-inside-X / resume-inside-X / jump-out-of-X   (X = io_bind, io_limit, iterate)
-//	C01 cgen-ub:high_bits(n:0)          u32/u64 high_bits with n == 0 (undefined shift in C)
 //
 // Unsupported (Outcome.Unsupported, Outcome.Err() wraps ErrUnsupported):
 // pointers (ptr / nptr), tables, tokens, cpu_arch and SIMD, `use`, slices of
